@@ -27,6 +27,11 @@ func init() {
 		"sxParam":   sxParam,
 		"sxOpt":     sxOpt,
 		"sxNote":    sxNote,
+		"sxOutput": func(fr *frame, args []value) value {
+			v := normStr(fr.i.ps.out)
+			fr.i.ps.out = nil
+			return v
+		},
 		"sxOptN": func(fr *frame, args []value) value {
 			ps := fr.i.ps
 			switch name := concStr(args[0], "sxOptN name"); name {
@@ -207,6 +212,8 @@ func sxOpt(fr *frame, args []value) value {
 		ps.nondetMap = on
 	case "explore-sched":
 		ps.sched.explore = on
+	case "prob":
+		ps.probMode = on
 	case "rr-sched":
 		ps.sched.rr = on
 	case "race":
